@@ -176,6 +176,11 @@ class Interp:
                     self.imports[a.asname or a.name] = '%s.%s' % (node.module, a.name)
             elif isinstance(node, ast.FunctionDef):
                 self.funcs[node.name] = node
+            elif isinstance(node, ast.Assign) and isinstance(node.value, ast.Constant) \
+                    and all(isinstance(t, ast.Name) for t in node.targets):
+                # module-level caches / constants:  _bs = None  etc. (fresh-cache state)
+                for t in node.targets:
+                    self.globals[t.id] = node.value.value
 
     # ---- helpers ---------------------------------------------------------
     def bind(self, name, typ):
@@ -628,6 +633,11 @@ class Interp:
         inner = dict(env={}, globals_decl=set(), closure=fr)
         self.assign(g.target, item, inner)
         return SymList(self.eval(e.elt, inner))
+
+    def e_IfExp(self, e, fr):
+        t = self.truth(self.eval(e.test, fr), e.test)
+        self.trace.append((e.lineno, self.src(e.test), t))
+        return self.eval(e.body if t else e.orelse, fr)
 
     def e_JoinedStr(self, e, fr):
         return '<str>'
